@@ -221,6 +221,9 @@ impl<'src> Error<'src> {
       | Self::Code { code, .. } => Some(*code),
 
       Self::ChooserStatus { status, .. } | Self::EditorStatus { status, .. } => status.code(),
+      Self::CommandStatus { status, .. } => status.code().or_else(|| {
+        Platform::signal_from_exit_status(*status).and_then(|signal| 128i32.checked_add(signal))
+      }),
       Self::Backtick {
         output_error: OutputError::Signal(signal),
         ..
